@@ -208,6 +208,63 @@ def main(argv):
                                 if outcome == "illegal" or wire_key != want:
                                     ctx.violation("a legal key was rejected or not transmitted as exactly prefix + encoded key",
                                                   dict(case, wire_key=None if wire_key is None else hx(wire_key), want=hx(want)), tags=tags + ["wire-key"])
+    # ---- the rule does not depend on what the same object did before: the same strings used earlier as stats / cache_memlimit arguments
+    #      (which are checked with an EMPTY prefix), as keys of other commands, or in another spelling (str / bytes) ----------------------
+    hist_keys = ["items", b"items", "64", b"64", "k" * 250, b"k" * 248, "x" * 247, "two words", b"nul\x00", "é", b"ns:k"]
+    for pfx in (b"ns:", b"p", b""):
+        for au in (False, True):
+            for cls in ("Client", "PooledClient", "HashClient"):
+                for key in hist_keys:
+                    for pre in ("stats", "cache_memlimit", "same-key-twice", "other-spelling", "set-then-get"):
+                        world.conns.clear()
+                        world.tag = ("hist", pre)
+                        kw = dict(allow_unicode_keys=au, key_prefix=pfx, socket_module=sm)
+                        obj = {"Client": lambda: Client(("h", 1), **kw), "PooledClient": lambda: PooledClient(("h", 1), max_pool_size=1, **kw),
+                               "HashClient": lambda: HashClient([("h", 1)], **kw)}[cls]()
+                        try:
+                            if pre == "stats":
+                                if not hasattr(obj, "stats"):
+                                    continue
+                                obj.stats(key)
+                            elif pre == "cache_memlimit":
+                                txt = key.decode() if isinstance(key, bytes) else key
+                                if not hasattr(obj, "cache_memlimit") or not txt.isdigit():
+                                    continue
+                                obj.cache_memlimit(int(txt))
+                            elif pre == "same-key-twice":
+                                obj.get(key)
+                            elif pre == "other-spelling":
+                                obj.get(key.decode("utf8") if isinstance(key, bytes) else key.encode("utf8"))
+                            else:
+                                obj.set(key, b"v", noreply=True)
+                        except Exception:
+                            pass
+                        nbefore = sum(len(c.sent) for c in world.conns)
+                        try:
+                            obj.get(key)
+                            outcome = "ok"
+                        except MemcacheIllegalInputError:
+                            outcome = "illegal"
+                        except Exception as e:
+                            outcome = "exc:" + type(e).__name__
+                        allsent = [d for c in world.conns for _, d in c.sent]
+                        sent = b"".join(allsent[nbefore:])
+                        want = legal(au, pfx, key)
+                        case = {"class": cls, "earlier_call": pre, "then": "get", "au": au, "prefix": hx(pfx), "key": key_tok(key), "outcome": outcome, "sent": hx(sent[:80])}
+                        ctx.case(("hist", cls, pre, au, pfx, key), nontrivial=True)
+                        ctx.count("histories-on-one-object")
+                        tags = [cls, "history"]
+                        if want is None:
+                            if sent:
+                                ctx.violation("an illegal key was transmitted (after an earlier call on the same object)", case, tags=tags + ["sent-on-reject"])
+                            elif outcome != "illegal":
+                                ctx.violation("an illegal key was not rejected with MemcacheIllegalInputError (after an earlier call on the same object)", case, tags=tags + ["not-rejected"])
+                        elif want != b"":
+                            toks = sent.split(b"\r\n")[0].split(b" ")
+                            wire_key = toks[1] if len(toks) > 1 else None
+                            if outcome == "illegal" or wire_key != want:
+                                ctx.violation("a legal key was rejected or not transmitted as exactly prefix + encoded key (after an earlier call on the same object)",
+                                              dict(case, wire_key=None if wire_key is None else hx(wire_key), want=hx(want)), tags=tags + ["wire-key"])
     if ctx.lean.build_ok:
         for (case, real), m in zip(reals, ctx.driver.batch(lines)):
             if m != real:
